@@ -5,7 +5,7 @@
     Print Assumptions output). *)
 From Coq Require Import ZArith QArith Qreals Reals List.
 From Gen Require Import GenIAPWS GenTraced.
-From P Require Import Expr RunR SatInv SatRange B23 Visc.
+From P Require Import Expr RunR Visc.
 Import ListNotations.
 Close Scope Q_scope.
 Open Scope R_scope.
